@@ -277,6 +277,7 @@ func checkReferenceFiller(r *core.Run, p *core.Program, a *analysis, rule string
 		})
 	}
 	r.Floor(rule, "setter closures handed to NotifyLocalReference", nClos, 5)
+	checkValueContainerSetters(r, p, rule, ctxNotify)
 
 	// filler shape
 	if f := findFn(p, "builder", "ReferenceFiller.NotifyLocalReference"); f == nil {
@@ -363,5 +364,131 @@ func checkReferenceFiller(r *core.Run, p *core.Program, a *analysis, rule string
 		})
 		r.Check(rule, "builder.ReferenceFiller.NotifyMarker|store-run-clear", f.Decl.Pos(), stores && runsAll && clears,
 			"NotifyMarker must store the marked value, call every queued setter with it and delete the queue")
+	}
+}
+
+// checkValueContainerSetters: a builder whose product is a Go VALUE (a struct or array made with reflect.New(T).Elem(),
+// the node) is copied into its parent when it finishes. A setter queued for a forward reference that writes into the
+// builder's own value therefore fills in a copy nobody looks at any more: the reference stays nil in the result.
+func checkValueContainerSetters(r *core.Run, p *core.Program, rule string, ctxNotify *types.Func) {
+	pkg := p.Pkg("builder")
+	info := pkg.TypesInfo
+	isNewElem := func(e ast.Expr) bool {
+		call, ok := stripParens(e).(*ast.CallExpr)
+		if !ok {
+			return false
+		}
+		c := callee(info, call)
+		if c == nil || c.Name() != "Elem" || !typeIs(recvType(c), "reflect", "Value") {
+			return false
+		}
+		sel, ok := call.Fun.(*ast.SelectorExpr)
+		if !ok {
+			return false
+		}
+		inner, ok := stripParens(sel.X).(*ast.CallExpr)
+		return ok && isFunc(callee(info, inner), "reflect", "New")
+	}
+	// value-container fields per builder type
+	valueFields := map[*types.Var]bool{}
+	valueLocals := map[types.Object]bool{}
+	for round := 0; round < 3; round++ {
+		for _, f := range funcsOf(pkg) {
+			ast.Inspect(f.Decl.Body, func(n ast.Node) bool {
+				switch x := n.(type) {
+				case *ast.AssignStmt:
+					for i, l := range x.Lhs {
+						if i >= len(x.Rhs) {
+							continue
+						}
+						derived := isNewElem(x.Rhs[i]) || derivedFromValue(info, x.Rhs[i], valueFields, valueLocals)
+						if !derived {
+							continue
+						}
+						if fv := fieldOf(info, l); fv != nil && typeIs(fv.Type(), "reflect", "Value") {
+							valueFields[fv] = true
+						} else if o := objOf(info, l); o != nil && typeIs(o.Type(), "reflect", "Value") {
+							valueLocals[o] = true
+						}
+					}
+				case *ast.KeyValueExpr:
+					if fv, ok := objOf(info, x.Key).(*types.Var); ok && fv.IsField() && typeIs(fv.Type(), "reflect", "Value") {
+						if isNewElem(x.Value) || derivedFromValue(info, x.Value, valueFields, valueLocals) {
+							valueFields[fv] = true
+						}
+					}
+				}
+				return true
+			})
+		}
+	}
+	n := 0
+	for _, f := range funcsOf(pkg) {
+		rn := recvNamed(f.Obj)
+		if rn == nil || f.Obj.Name() != "BuildFromLocalReference" {
+			continue
+		}
+		inspectCalls(info, f.Decl.Body, func(call *ast.CallExpr, cal *types.Func) {
+			if cal != ctxNotify || len(call.Args) != 2 {
+				return
+			}
+			lit, ok := call.Args[1].(*ast.FuncLit)
+			if !ok {
+				return
+			}
+			bad := ""
+			ast.Inspect(lit.Body, func(k ast.Node) bool {
+				switch x := k.(type) {
+				case *ast.Ident:
+					if o := info.Uses[x]; o != nil && valueLocals[o] {
+						bad = x.Name
+					}
+				case *ast.SelectorExpr:
+					if fv := fieldOf(info, x); fv != nil && valueFields[fv] {
+						bad = exprStr(x)
+					}
+				}
+				return true
+			})
+			n++
+			r.Check(rule, f.Name()+"|a forward reference reaches the finished value", call.Pos(), bad == "",
+				"the setter queued for a forward reference writes into "+bad+", which belongs to this builder's own copy of a struct/array/node value; the finished value is copied into its parent before the marker arrives, so the reference stays nil in the result ([{\"a\"=$x} {\"a\"=&x:5}] into []struct{A interface{}} gives [{<nil>} {5}])")
+		})
+	}
+	_ = n
+}
+
+func derivedFromValue(info *types.Info, e ast.Expr, valueFields map[*types.Var]bool, valueLocals map[types.Object]bool) bool {
+	for {
+		switch x := stripParens(e).(type) {
+		case *ast.CallExpr:
+			c := callee(info, x)
+			if c != nil && core.InModule(c) && typeIs(info.TypeOf(x), "reflect", "Value") {
+				// a module helper that returns a view of (a field of) the value it is given: field.GetField(container)
+				for _, a := range x.Args {
+					if derivedFromValue(info, a, valueFields, valueLocals) {
+						return true
+					}
+				}
+				return false
+			}
+			sel, ok := x.Fun.(*ast.SelectorExpr)
+			if c == nil || !ok || !typeIs(recvType(c), "reflect", "Value") {
+				return false
+			}
+			switch c.Name() {
+			case "Field", "Index", "FieldByIndex", "FieldByName":
+				e = sel.X
+			default:
+				return false
+			}
+		case *ast.Ident:
+			return valueLocals[info.ObjectOf(x)]
+		case *ast.SelectorExpr:
+			fv := fieldOf(info, x)
+			return fv != nil && valueFields[fv]
+		default:
+			return false
+		}
 	}
 }
